@@ -56,6 +56,15 @@ func PropagateChangesFromUpstreamRepository(downstreamRepo, upstreamRepo *gitint
 			return err
 		}
 
+		if upstreamPath := detail.GetUpstreamPath(); upstreamPath != "" {
+			// Only the contents of upstreamPath are propagated, so that's the
+			// tree the downstream path must be compared against
+			upstreamTreeID, err = upstreamRepo.GetPathIDInTree(upstreamTreeID, upstreamPath)
+			if err != nil {
+				return err
+			}
+		}
+
 		if !currentPathTreeID.IsZero() && currentPathTreeID.Equal(upstreamTreeID.Bytes()) {
 			// Nothing to do
 			continue
